@@ -95,6 +95,11 @@ def meta_of(kind, trees, cutoff):
             "has_rooted": any(len(t["slots"]) == 2 for t in trees), "on_threshold": on, "cutoff": str(cutoff)}
 
 def case(out, kind, trees, cutoff, pres=None):
+    if isinstance(cutoff, Sym):
+        # non-finite threshold
+        out.append({"sx": sx({"trees": [T(t) for t in trees], "cutoff": cutoff}),
+                    "meta": {"kind": kind, "n": len(trees), "ntips": len(leaves(trees[0])) if trees else 0, "cutoff": cutoff.s}})
+        return
     c = {"trees": [T(t) for t in trees], "cutoff": Fraction(cutoff)}
     if pres is not None:
         c["pres"] = pres
@@ -207,6 +212,8 @@ def gen(rng, tier):
         ts = collection(rng, g, rng.randint(1, 5), rng.randint(4, 7), rng.choice([0, 0.5]))
         for bc in BAD_CUTOFFS:
             case(out, "bad-cutoff", ts, bc)
+        for sym in ("nan", "inf", "-inf"):
+            case(out, "bad-cutoff-nonfinite", ts, Sym(sym))
     # hash extremes: the four names whose balanced split has Edge.HashCode exactly 0 (found by the author of a seeded
     # change, C09-r6m1), in every tree / in most trees; and names colliding on the low 7 bits of their FNV hash
     z = _c08.zero4_trees(g)
@@ -281,17 +288,22 @@ def extra(tier, seed, st):
         ts = collection(rng, g, 4, 6, 0)
         f = os.path.join(d, "trees.nw")
         open(f, "w").write("".join(newick(t) + "\n" for t in ts))
-        for cu, valid in [(c, False) for c in BAD_CUTOFFS] + [(Fraction(1, 2), True), (Fraction(3, 4), True), (Fraction(1), True)]:
-            argv = ["compute", "consensus", "-i", f, "-f", dec(cu)]
+        for cu, valid in [(c, False) for c in BAD_CUTOFFS] + [("NaN", False), ("Inf", False), ("-Inf", False), ("+Inf", False), ("nan", False)] + \
+                         [(Fraction(1, 2), True), (Fraction(3, 4), True), (Fraction(1), True)]:
+            if isinstance(cu, str):
+                dec_cu = cu
+            else:
+                dec_cu = dec(cu)
+            argv = ["compute", "consensus", "-i", f, "-f=" + dec_cu]
             rc, out, errb = cli.run(argv, d)
             info["cli_runs"] += 1
             body = {"argv": argv, "rc": rc, "stdout": out.decode("utf-8", "replace")[-500:], "stderr": errb.decode("utf-8", "replace")[-300:],
                     "trees": [newick(t) for t in ts]}
             printed = out.decode("utf-8", "replace").strip()
             if not valid and (rc == 0 or printed.endswith(";")):
-                fails.append(("cli-consensus", "gotree compute consensus -f %s: threshold outside [0.5,1] accepted (exit %d, output %r)" % (dec(cu), rc, printed[:80]), body))
+                fails.append(("cli-consensus", "gotree compute consensus -f %s: threshold outside [0.5,1] accepted (exit %d, output %r)" % (dec_cu, rc, printed[:80]), body))
             if valid and (rc != 0 or not printed.endswith(";")):
-                fails.append(("cli-consensus", "gotree compute consensus -f %s: valid threshold refused (exit %d)" % (dec(cu), rc), body))
+                fails.append(("cli-consensus", "gotree compute consensus -f %s: valid threshold refused (exit %d)" % (dec_cu, rc), body))
         info["evaluations"] = info["cli_runs"]
     finally:
         shutil.rmtree(d, ignore_errors=True)
